@@ -209,6 +209,65 @@ Theorem C16_wrapped_unsigned_registered : forall g d t0 pre outer h c st' r via 
 Proof. exact wrapped_unsigned_registered. Qed.
 Print Assumptions C16_wrapped_unsigned_registered.
 
+(* ---------------------------------------------------------------- the registration in force
+   `register g rq` = the dynamic registration of a client that asks for request_object_signing_alg = rq_alg rq at the
+   provider g (Registration.filter_client_request / match_claim / do_client_registration): RegStored g' ci = accepted,
+   g' the provider afterwards, ci the record stored - which is also what the registration response echoes and the
+   read endpoint returns (the harness compares all three with c_reg ci on every registration).  The provider's own
+   signing keys do not occur in `register`: request objects are verified with the client's keys. *)
+
+(* C16_registered_exact - the client asked for an algorithm the provider advertises: that algorithm is what is
+   registered, and the set permitted for the client is exactly the singleton it asked for *)
+Theorem C16_registered_exact : forall g rq g' ci a,
+  register g rq = RegStored g' ci -> rq_alg rq = Some a -> In a (prov_algs g) ->
+  find_client (clients g') (c_id ci) = Some ci /\ c_reg ci = RStr a /\ forall x, allowed g' ci x = true <-> x = a.
+Proof. exact register_permitted_exact. Qed.
+Print Assumptions C16_registered_exact.
+
+(* ... hence over every history on the provider as it is afterwards, by value / by request_uri / pushed: an object whose
+   parameters take effect for that client has the algorithm it asked for and (unless that is "none") verified under a
+   key the key jar holds for the client *)
+Theorem C16_registered_only_requested : forall g rq g' ci a d t0 ops,
+  cfg_wf g = true -> register g rq = RegStored g' ci -> rq_alg rq = Some a -> In a (prov_algs g) ->
+  Forall (fun sr => forall r via v, snd sr = RAuthz (Acc r) via -> r_vr r = Some v ->
+            assoc k_client_id (r_params r) = Some (PS_ (c_id ci)) ->
+            v_alg v = a /\
+            (a <> s_none -> exists n kt, v_key v = Some n /\ alg_kind a = AlgK kt /\ key_for g' (c_id ci) kt n))
+         (run g' d (init t0) ops).
+Proof. exact registered_only_requested. Qed.
+Print Assumptions C16_registered_only_requested.
+
+(* C16_registered_dropped - nothing asked for, or a value the provider does not advertise: nothing is registered (the
+   response says so) and the property's fallback applies: the provider's supported set, no more, no less *)
+Theorem C16_registered_dropped : forall g rq g' ci,
+  register g rq = RegStored g' ci ->
+  (rq_alg rq = None \/ exists a, rq_alg rq = Some a /\ ~ In a (prov_algs g)) ->
+  c_reg ci = RAbsent /\ forall x, allowed g' ci x = true <-> In x (prov_algs g).
+Proof. exact register_dropped. Qed.
+Print Assumptions C16_registered_dropped.
+
+(* one client's registration changes neither the provider's settings nor what is permitted for any other client *)
+Theorem C16_registration_frame : forall g rq g' ci,
+  register g rq = RegStored g' ci ->
+  prov_algs g' = prov_algs g /\ jar g' = jar g /\ hooks g' = hooks g /\ methods g' = methods g /\
+  (forall c, c <> c_id ci -> find_client (clients g') c = find_client (clients g) c) /\
+  (forall cj x, allowed g' cj x = allowed g cj x).
+Proof. exact register_frame. Qed.
+Print Assumptions C16_registration_frame.
+
+(* the guard the harness evaluates survives a registration (so every theorem above applies to g') *)
+Theorem C16_registration_wf : forall g rq g' ci, cfg_wf g = true -> register g rq = RegStored g' ci -> cfg_wf g' = true.
+Proof. exact register_wf. Qed.
+Print Assumptions C16_registration_wf.
+
+(* a refused registration registers nothing: for an id the client database does not hold, no object ever takes effect *)
+Theorem C16_unregistered_no_effect : forall g d t0 ops c, cfg_wf g = true -> find_client (clients g) c = None ->
+  Forall (fun sr => forall r via v, snd sr = RAuthz (Acc r) via -> r_vr r = Some v ->
+            assoc k_client_id (r_params r) <> Some (PS_ c))
+         (run g d (init t0) ops).
+Proof. exact unregistered_no_effect. Qed.
+Print Assumptions C16_unregistered_no_effect.
+
 (* ---------------------------------------------------------------- non-vacuity: accepting and refusing runs *)
 Example C16_accepts_genuine :
   cfg_wf (ex_cfg false (RStr s_rs256)) = true /\ cfg_wf (ex_cfg true RAbsent) = true /\
@@ -302,4 +361,17 @@ Example C16_wrapped_refuses :
   (* behind a request_uri *)
   refused (outcome_of (authz_parse (ex_cfg true RAbsent) [(s_doc0, wenc ex_hdr (wgen s_es256 (ex_claims s_c1 s_r1) 1))] (init 0)
                                    (ex_by_uri s_doc0) None)) = true.
+Proof. vm_compute. repeat split; reflexivity. Qed.
+
+(* client_d registers ES384 at a provider that advertises it (and owns no P-384 key itself): ES384 is registered, only
+   the ES384 object takes effect; at a provider that does not advertise ES384 nothing is registered and the provider's
+   set applies (RS256 and HS256 objects take effect, ES384 and unsigned ones do not); a client that does not say gets
+   the provider's set *)
+Example C16_registration_examples :
+  ex_after_registration [s_rs256; s_es256; s_es384; s_hs256] (Some s_es384) = Some (RStr s_es384, [true; false; false; false]) /\
+  ex_after_registration [s_rs256; s_es256; s_hs256] (Some s_es384) = Some (RAbsent, [false; true; true; false]) /\
+  ex_after_registration [s_rs256; s_es256; s_es384; s_hs256] None = Some (RAbsent, [true; true; true; false]) /\
+  ex_after_registration [s_rs256; s_none] (Some s_none) = Some (RStr s_none, [false; false; false; true]) /\
+  cfg_wf (ex_cfg_r [s_rs256]) = true /\
+  register (ex_cfg_r [s_rs256]) {| rq_alg := Some s_rs256; rq_ok := false; rq_rest := ex_client s_cd s_rd RAbsent |} = RegRefused.
 Proof. vm_compute. repeat split; reflexivity. Qed.
